@@ -25,7 +25,8 @@ def run(tier, v):
             if f not in init_other:
                 # new file in the project: tolerated only after a kill and only if out of scope
                 failed_unlink = any(o.op == "unlink" and o.res < 0 and o.path.endswith("/" + f) for o in x.trace)
-                if x.signal == signal.SIGKILL and not f.endswith(".rs"):
+                panicked_on_stdout = x.exit == 101 and any(o.cls == "log" and o.res < 0 for o in x.trace)
+                if (x.signal == signal.SIGKILL or panicked_on_stdout) and not f.endswith(".rs"):
                     v.notes.append("leftover out-of-scope file after kill: %s" % f) if len(v.notes) < 20 else None
                 elif failed_unlink:
                     # the run did try to remove it and that very unlink was made to fail: nothing an implementation could do
